@@ -265,6 +265,20 @@ class Processor:
                 return default
 
             raise
+        except AttributeError:
+            # The key may point inside a mapping or a list (e.g. a model's argument
+            # 'arguments.optics.transmission'), like in methods 'has' and 'set'
+            try:
+                obj, att = _get_obj_att(obj=self, key=key)
+            except Exception:  # noqa: BLE001
+                obj, att = None, ""
+
+            if isinstance(obj, dict) and att in obj:
+                return obj[att]
+            if isinstance(obj, list) and att.isdigit() and int(att) < len(obj):
+                return obj[int(att)]
+
+            raise
 
         return result
 
